@@ -67,4 +67,66 @@ theorem step_eff (cfg : Cfg) (s s' : Sys) (t : Tid) (hl : LockInv s)
     grind [cur, upd, Pc.crit, UPc.crit, NPc.crit, Pc.infl, Pc.popped, Pc.half, canAcq,
       ownerAfterRel]
 
+/-! ### The accounting list stays duplicate-free -/
+
+theorem nd4_queue (a b c d : List Pkt) (p : Pkt) (h : (a ++ b ++ c ++ d).Nodup)
+    (hp : ¬ (p ∈ a ∨ p ∈ b ∨ p ∈ c ∨ p ∈ d)) : (a ++ b ++ (c ++ [p]) ++ d).Nodup := by
+  simp only [List.nodup_append, List.mem_append] at h ⊢
+  grind
+
+theorem nd4_infl (a c d : List Pkt) (p : Pkt) (h : (a ++ [] ++ c ++ d).Nodup)
+    (hp : ¬ (p ∈ a ∨ p ∈ ([] : List Pkt) ∨ p ∈ c ∨ p ∈ d)) : (a ++ [p] ++ c ++ d).Nodup := by
+  simp only [List.nodup_append, List.mem_append] at h ⊢
+  grind
+
+theorem nd4_pop (a c d : List Pkt) (q : Pkt) (h : (a ++ [] ++ (q :: c) ++ d).Nodup) :
+    (a ++ [q] ++ c ++ d).Nodup := by
+  simpa using h
+
+theorem nd4_sent (a c d : List Pkt) (p : Pkt) (h : (a ++ [p] ++ c ++ d).Nodup) :
+    ((a ++ [p]) ++ [] ++ c ++ d).Nodup := by
+  simpa using h
+
+theorem nd4_fail (a c d : List Pkt) (p : Pkt) (h : (a ++ [p] ++ c ++ d).Nodup) :
+    (a ++ [] ++ c ++ (d ++ [p])).Nodup := by
+  simp only [List.nodup_append, List.mem_append] at h ⊢
+  grind
+
+theorem nodup_of_eff (s s' : Sys) (t : Tid) (ev : Ev)
+    (hm : ∀ p, p ∈ s.issued ↔ p ∈ sentPkts s.wire ∨ p ∈ (cur s).infl ∨ p ∈ s.queue ∨ p ∈ s.failed)
+    (hn : (sentPkts s.wire ++ (cur s).infl ++ s.queue ++ s.failed).Nodup)
+    (hf : ∀ p ∈ pktsOf (s.thr t).todo, p ∉ s.issued)
+    (he : Eff s s' t ev) :
+    (sentPkts s'.wire ++ (cur s').infl ++ s'.queue ++ s'.failed).Nodup := by
+  cases ev <;> simp only [Eff, SameQ, Clean] at he
+  case app p =>
+    obtain ⟨h1, h2, h3, -, h5, -, h7⟩ := he
+    rw [h1, h2, h3, h5]
+    exact nd4_queue _ _ _ _ p hn (by rw [← hm]; exact hf p (by rw [h7]; simp [pktsOf, Op.pkts]))
+  case acq =>
+    obtain ⟨h1, h2, h3, -, -, ⟨hc, -, -⟩, -, -, h8⟩ := he
+    rw [h1, h2, h3]; rw [hc] at hn
+    rcases h8 with ⟨h8, -, -⟩ | ⟨p, h8, -, h9⟩
+    · rw [h8]; exact hn
+    · rw [h8]
+      exact nd4_infl _ _ _ p hn (by rw [← hc, ← hm]; exact hf p (by rw [h9]; simp [pktsOf, Op.pkts]))
+  case rel =>
+    obtain ⟨h1, ⟨h2, h3, -⟩, -, -, ⟨hc, -, -⟩, ⟨hc', -, -⟩, -⟩ := he
+    rw [h1, h2, h3, hc']; rw [hc] at hn; exact hn
+  case pop q =>
+    obtain ⟨h1, h2, h3, -, -, -, ⟨hc, -, -⟩, hc', -, -, -⟩ := he
+    rw [h1, h3, hc']; rw [hc, h2] at hn; exact nd4_pop _ _ _ q hn
+  case snd p c =>
+    obtain ⟨h1, ⟨h2, h3, -⟩, -, -, hc, -, h0, h1'⟩ := he
+    rw [h1, h2, h3]; rw [hc] at hn
+    match c with
+    | 0 => rw [sentPkts_snoc0, (h0 rfl).2.2.2.1]; exact hn
+    | 1 => rw [sentPkts_snoc1, (h1' rfl).2.1.1]; exact nd4_sent _ _ _ p hn
+  case fail =>
+    obtain ⟨p, h1, h2, h3, -, -, -, -, hc, -, ⟨hc', -, -⟩, -, -⟩ := he
+    rw [h1, h2, h3, hc']; rw [hc] at hn; exact nd4_fail _ _ _ p hn
+  all_goals
+    obtain ⟨h1, ⟨h2, h3, -⟩, -, hc, -, -, -⟩ := he
+    rw [h1, h2, h3, hc]; exact hn
+
 end PyCraft.Writers
